@@ -728,6 +728,14 @@ func runGateBehaviour(b *GateBehaviour, watchdog time.Duration, tickMs int) *Gat
 			}
 		}
 	}
+	if res.Hang == "" && res.Panic == "" && r.pending == "start" && !r.inflight {
+		// a start request that the behaviour announced as its last step is issued now
+		p, sl := r.limits(r.pendI)
+		r.pending = ""
+		r.callModes, r.callAt = append(r.callModes, r.mode[r.pendI]), append(r.callAt, time.Since(g.t0))
+		r.launch("StartSearch", func() { r.s.StartSearch(*p, *sl) })
+		r.awaitReturn("StartSearch")
+	}
 	if res.Hang == "" && res.Panic == "" {
 		if res.Diverged != nil {
 			drain(time.Duration(4*tickMs) * time.Millisecond)
